@@ -465,6 +465,13 @@ func runC19(c *Ctx) {
 				zw.Close()
 				zf.Close()
 				args = nil
+				if j.k%4 == 3 {
+					// an archive under another name: the version then comes from -sdk
+					np := filepath.Join(j.dir, "sdk.zip")
+					os.Rename(inPath, np)
+					inPath = np
+					args = []string{"-sdk", j.wb}
+				}
 			} else {
 				os.WriteFile(inPath, buf.Bytes(), 0o644)
 			}
